@@ -1,9 +1,15 @@
 
 // ---- model-only helpers appended by /verif/units/sbbf (same module => private access) ----
+impl Default for Block {
+    fn default() -> Self {
+        Self::ZERO
+    }
+}
+
 impl Sbbf {
     /// An arbitrary filter of `n` (1..=3) blocks with arbitrary contents.
     pub fn verif_any(n: usize) -> Self {
-        let mut blocks = vstd::vec::Vec::with_capacity(3);
+        let mut blocks = vstd::cvec::Vec::with_capacity(3);
         let mut i = 0;
         while i < 3 {
             if i < n {
